@@ -208,6 +208,21 @@ func (p *IdentityProvider) ssoHandleFunc(w http.ResponseWriter, r *http.Request)
 		},
 	)
 
+	// verify that the response can be delivered with the selected binding before anything is persisted
+	checkerInstance.WithLogicStep(
+		func() error {
+			switch response.ProtocolBinding {
+			case RedirectBinding, PostBinding:
+				return nil
+			}
+			err = fmt.Errorf("unsupported binding: %s", response.ProtocolBinding)
+			return err
+		},
+		func() {
+			response.sendBackResponse(r, w, response.makeFailedResponse(StatusCodeUnsupportedBinding, err.Error(), p.TimeFormat))
+		},
+	)
+
 	// persist authrequest
 	checkerInstance.WithLogicStep(
 		func() error {
